@@ -258,8 +258,10 @@ int main(int argc, char** argv)
   OUT o = { NULL, 0, 0 };
   char** toks = NULL;
   int tokcap = 0;
+  long seq = -1;
   while ((len = getline(&line, &cap, stdin)) >= 0)
   {
+    ++seq;
     /* tokenize in place */
     int n = 0;
     char* p = line;
@@ -272,7 +274,7 @@ int main(int argc, char** argv)
       while (*p && *p != ' ' && *p != '\n' && *p != '\r' && *p != '\t') ++p;
       if (*p) *p++ = 0;
     }
-    if (n == 0) { printf("skip\n"); continue; }
+    if (n == 0) { printf("#%ld skip\n", seq); continue; }
     TOKS t = { toks, n, 1, 0 };
     /* per-line modifiers: "@clk=K" as first token(s) before the op name */
     long line_clock_at = clock_at;
@@ -284,10 +286,10 @@ int main(int argc, char** argv)
       else if (!strcmp(toks[opi], "@fresh")) { CMRfreeEnvironment(&cmr); if (CMRcreateEnvironment(&cmr)) return 3; }
       ++opi;
     }
-    if (opi >= n) { printf("skip\n"); continue; }
+    if (opi >= n) { printf("#%ld skip\n", seq); continue; }
     t.pos = opi + 1;
     OPDEF* d = find_op(toks[opi]);
-    if (!d) { printf("bad-op unknown\n"); continue; }
+    if (!d) { printf("#%ld bad-op unknown\n", seq); continue; }
     if (fresh)
     {
       CMRfreeEnvironment(&cmr);
@@ -309,7 +311,8 @@ int main(int argc, char** argv)
     alarm(0);
     hw_clock_inject_at = 0;
     size_t usage1 = CMRgetStackUsage(cmr);
-    if (t.bad) { printf("bad-op malformed\n"); continue; }
+    if (t.bad) { printf("#%ld bad-op malformed\n", seq); continue; }
+    printf("#%ld ", seq);
     if (e) printf("err:%s", errname(e)); else printf("ok");
     printf("%s ;; st=%zu,%zu,%ld,%ld in=%d clk=%ld,%ld", o.s ? o.s : "", usage0, usage1, (long) hw_depth - (long) depth0,
       hw_order_violations - viol0, h_input_modified, hw_clock_reads, hw_clock_fired);
